@@ -101,6 +101,15 @@ CheckFiles(r) == IF r.res # "ok" THEN Flag("MISMATCH", r.case, "run did not succ
                  ELSE IF r.out # Cat(r.parts, 1) THEN Flag("MISMATCH", r.case, "the output for f1..fn is not the concatenation of the outputs for each file alone")
                  ELSE IF r.exact /\ r.mode = "plain" /\ r.policy \in {"ignore", "stderr"} /\ r.out # out THEN Flag("DRIFT", r.case, "machine stdout differs")
                  ELSE TRUE
+\* a directory argument: the rows are those of its files, each file once, in an order the specification does not fix (read_dir)
+CheckDir(r) ==
+  LET got == RowLines(r.out)
+      want == RowLines(Cat(r.parts, 1)) IN
+  IF r.res # "ok" THEN Flag("MISMATCH", r.case, "run did not succeed")
+  ELSE IF Len(got) # Len(want) THEN Flag("MISMATCH", r.case, <<"a directory argument gives", Len(got), "rows; its files hold", Len(want)>>)
+  ELSE IF \E k \in 1..Len(got) : Cardinality({i \in 1..Len(got) : got[i] = got[k]}) # Cardinality({i \in 1..Len(want) : want[i] = got[k]})
+       THEN Flag("MISMATCH", r.case, "the rows of a directory argument are not the rows of its files")
+  ELSE TRUE
 \* ---- C18
 CheckInvalid(r) == IF r.res \notin {"err", "cli"} THEN Flag("MISMATCH", r.case, <<"an invalid configuration was not rejected: result", r.res>>)
                    ELSE IF r.out # <<>> THEN Flag("MISMATCH", r.case, "something was written to the output before the configuration was rejected")
@@ -121,7 +130,7 @@ CheckProc(r) ==
   ELSE TRUE
 
 Check(r) == CASE r.kind = "fault" -> CheckFault(r) [] r.kind = "ctx" -> CheckCtx(r) [] r.kind = "same" -> CheckSame(r)
-              [] r.kind = "files" -> CheckFiles(r) [] r.kind = "invalid" -> CheckInvalid(r) [] r.kind = "proc" -> CheckProc(r)
+              [] r.kind = "files" -> CheckFiles(r) [] r.kind = "dir" -> CheckDir(r) [] r.kind = "invalid" -> CheckInvalid(r) [] r.kind = "proc" -> CheckProc(r)
 
 Init == l = 1 /\ M!Init0(CfgOf(Rec[1]))
 Step == /\ l <= Len(Rec) /\ ~M!Exited /\ M!Next /\ l' = l
